@@ -212,6 +212,28 @@ MINE = {
  "C18-j": ("missed", "param-name-in-two-locations: a field that is a query filter on the collection route and the path variable of the item route, a header named like a query parameter"),
  "C19-j": ("missed", "every message with a required scalar field is also the body of a PUT route that binds the field to a path variable"),
  "C20-j": ("caught as built", ""),
+
+ # ---- round k (definition shape C01-C05, fault / unusual peer C06-C10, value or sequence C11-C15, two cooperating sites C16-C20)
+ "C01-k": ("missed (needs google.protobuf.Value fields; the schema IR knows Timestamp and Duration only)", ""),
+ "C02-k": ("missed", "placement group fnames: URL-bound fields whose proto names are not lower snake_case (itemId, shelfNo, ID, userID, x1, a_B)"),
+ "C03-k": ("caught as built", ""),
+ "C04-k": ("missed (the coarse pattern for flattened oneofs absorbed it)", "features oneof_{nested,flatten}/message/fieldless-variants"),
+ "C05-k": ("missed", "nested features inside a holder message that declares no fields of its own (a pure namespace)"),
+ "C06-k": ("caught as built", ""),
+ "C07-k": ("missed by C07 (one invocation per file; caught by c04split under C04/C05/C14)", ""),
+ "C08-k": ("missed", "uuid-format headers in the helper unit; typed helper options carry upper- and mixed-case UUIDs"),
+ "C09-k": ("missed", "scenarios absent+body-announced-as-{gzip,x-gzip,deflate,br,identity}: a missing required header next to a body announced with a Content-Encoding it is not valid in"),
+ "C10-k": ("caught as built", ""),
+ "C11-k": ("missed", "oracle: the message handed to the handler must be one the reference encoder can write; leaf replacements by int64-sized numbers outside the Timestamp range and dates in year 0000 / 10000"),
+ "C12-k": ("missed", "rules judged in an RPC declared AFTER valid RPCs whose routes use the offending name as a path variable / query parameter"),
+ "C13-k": ("caught as built", ""),
+ "C14-k": ("caught as built", ""),
+ "C15-k": ("caught as built", ""),
+ "C16-k": ("caught as built", ""),
+ "C17-k": ("missed by C17 (options of an earlier Register call leaking into a later one: caught by C10's hook-less registration after a hooked one)", ""),
+ "C18-k": ("missed", "path variables bound to proto3 optional fields in the schema-shape probes"),
+ "C19-k": ("missed", "maps with int32 / uint32 / int64 / bool keys, with and without rules on the keys"),
+ "C20-k": ("missed", "mock case with message types of another Go package (singular, map value, inside a local map value); found and recorded a genuine defect on the way (map values of an imported type ignore its examples)"),
 }
 
 
